@@ -56,6 +56,10 @@ pub struct MrpCfg {
     /// quiet window
     pub settle: bool,
     pub group_fabric: Option<GroupFabric>,
+    /// Extra sessions which carry nothing and are removed (evicted) while the workloads run
+    pub victims: Vec<Planted>,
+    /// (time in ms, node which loses its side of the session, victim index)
+    pub closes: Vec<(u64, usize, usize)>,
 }
 
 #[derive(Clone, Copy, Debug)]
@@ -72,6 +76,8 @@ pub struct MrpKnobs {
     pub settle: bool,
     /// Probability (permille) of a step being sent without the reliability flag
     pub unreliable_permille: u32,
+    /// Other, idle sessions of the nodes are removed while the workloads run
+    pub session_closes: bool,
 }
 
 impl MrpKnobs {
@@ -88,6 +94,7 @@ impl MrpKnobs {
             cancel_handlers: false,
             settle: false,
             unreliable_permille: 40,
+            session_closes: true,
         }
     }
     pub fn full() -> Self {
@@ -103,6 +110,7 @@ impl MrpKnobs {
             cancel_handlers: false,
             settle: false,
             unreliable_permille: 40,
+            session_closes: true,
         }
     }
 }
@@ -302,10 +310,34 @@ pub fn gen_cfg(seed: u64, knobs: &MrpKnobs) -> MrpCfg {
         cancels.sort();
     }
 
+    // Idle sessions which are removed while the workloads run (1 to 4 in a third of the runs)
+    let mut victims = Vec::new();
+    let mut closes = Vec::new();
+    if knobs.session_closes && tape::biased(3, 350) != 0 {
+        let n = 1 + tape::biased(4, 400) as usize;
+        for i in 0..n {
+            victims.push(Planted {
+                kind: if tape::biased(2, 300) == 1 { Kind::Pase } else { Kind::Case },
+                a: 0,
+                b: 1,
+                a_local_sid: 40 + i as u16,
+                b_local_sid: 50 + i as u16,
+                a_nodeid: 0x1111_0100 + i as u64,
+                b_nodeid: 0x2222_0100 + i as u64,
+                key_ab: gen_key(seed ^ (0xC0 + i as u64)),
+                key_ba: gen_key(seed ^ (0xD0 + i as u64)),
+            });
+            closes.push((tape::choose(80) as u64 * 20, tape::choose(2) as usize, i));
+        }
+        closes.sort();
+    }
+
     MrpCfg {
         cancels,
         settle: knobs.settle,
         group_fabric: None,
+        victims,
+        closes,
         planted,
         workloads,
         handlers,
@@ -609,6 +641,8 @@ pub fn drive_with(
             calm: calm.clone(),
             probes_done: probes_done.clone(),
             group_fabric: cfg.group_fabric.clone(),
+            victims: cfg.victims.clone(),
+            closes: cfg.closes.iter().filter(|c| c.1 == node).map(|c| (c.0, c.2)).collect(),
         };
         exec.spawn(node, move |shared| stack_root(ctx, shared));
     }
